@@ -178,6 +178,27 @@ def run(ctx):
         ctx.traces += len(steps)
         if case['opname'] != 'delete':
             termsG.append(raglib.rhistory_term(case, steps)); keepG.append((case, steps))
+    # read-only mode while the array is open (context, live generator), nested requests, copies
+    S = [dict(kind=k, shape=sh) for k in ('ctx_switch', 'gen_switch', 'nested_rw') for sh in ([5], [4, 2], [0], [0, 3])
+         if not (k == 'gen_switch' and sh[0] == 0)]
+    S += [dict(kind=k, nonempty=ne, default=df) for k in ('ragged_copy', 'array_copy') for ne in (False, True) for df in (True, False)]
+    for case, ob in zip(S, ctx.run_impl(S, 'open_scenarios', timeout=1200)):
+        key = dict(case)
+        if 'harness_error' in ob or 'error' in ob:
+            ctx.fail('harness-error', key, observed=ob); continue
+        ctx.seen(key); ctx.count('scenario:' + case['kind'])
+        if case['kind'].endswith('_copy') and ob.get('copy_mode') != 'r':
+            ctx.fail('copy-not-readonly', key, expected="accessmode 'r'", observed=ob.get('copy_mode'))
+        for at in ob['attempts']:
+            ctx.evaluations += 1
+            if at['mode'] != 'r':
+                continue
+            if at['raised'] is None:
+                ctx.fail('readonly-call-accepted:' + case['kind'] + ':' + at['op'], key, observed=at)
+            elif not at['unchanged']:
+                ctx.fail('readonly-call-changed-files:' + case['kind'] + ':' + at['op'], key, observed=at)
+        if 'rplus_after' in ob and ob['rplus_after'] != 'ok':
+            ctx.fail('rplus-call-failed:' + case['kind'], key, observed=ob['rplus_after'])
     if keepA:
         c, s = keepA[7]
         ctx.sample(dict(kind='Array', how=c['letters'][0], op=c['opname'], shape=c['shape'],
